@@ -1541,7 +1541,7 @@ theorem validate_tucker_ok_iff (a : TuckerArgs) : validate_tucker a = .ok () ↔
     · have hN' : 0 < a.shape.length := by omega
       cases h1 : a.maxitersNonneg <;> cases h3 : optPerm a.shape.length a.dimorder <;>
         cases h4 : initTucker a.init a.shape a.rank (a.dimorder.getD ((List.range a.shape.length).map Int.ofNat)) <;>
-        simp_all [rejectIf]
+        simp_all [rejectIf] <;> omega
   · have h2' : (!(a.rank.length == 1 || a.rank.length == a.shape.length)) = true := by
       simp only [not_or] at h2
       simp [h2.1, h2.2]
@@ -1584,5 +1584,98 @@ theorem validate_gcp_ok_iff (a : GcpArgs) : validate_gcp a = .ok () ↔ Pre_gcp 
     cases hsp : a.sparse <;> cases ho : a.objectiveOk <;> cases hi : initGcp a.init a.shape a.rank <;>
       by_cases hs0 : a.solver = 0 <;> by_cases hs1 : a.solver = 1 <;> by_cases hms : m = a.shape <;>
       simp_all [maskFits, optAll, rejectIf]
+
+/-! ### importer -/
+
+theorem eq_map_iff_getD (fs : List MatS) (s : List Nat) (R : Nat) :
+    fs = s.map (fun e => (e, R)) ↔ fs.length = s.length ∧ ∀ k, k < s.length → fs.getD k (0, 0) = (s.getD k 0, R) := by
+  constructor
+  · rintro rfl
+    refine ⟨by simp, fun k hk => ?_⟩
+    rw [getD_of_lt _ _ _ (by simpa using hk), getD_of_lt _ _ _ hk]; simp
+  · rintro ⟨hl, h⟩
+    apply List.ext_getElem (by simpa using hl)
+    intro i h1 h2
+    have hi : i < s.length := by simpa using h2
+    have := h i hi
+    rw [getD_of_lt _ _ _ h1, getD_of_lt _ _ _ hi] at this
+    simpa using this
+
+theorem validate_import_ok_iff (a : ImportArgs) : validate_import a = .ok () ↔ Pre_import a := by
+  cases a with
+  | tensor h s n =>
+    rw [validate_import, Pre_import]
+    by_cases h1 : s.length = h
+    · rw [if_neg (by simp [h1]), rejectIf_ok]
+      simp [h1]
+    · rw [if_pos (by simp [h1])]
+      simp only [error_ne_ok, false_iff]
+      rintro ⟨h', _⟩; exact h1 h'.symm
+  | sptensor h s nnz lines =>
+    rw [validate_import, Pre_import]
+    by_cases h1 : s.length = h
+    · rw [if_neg (by simp [h1])]
+      by_cases h2 : lines.length < nnz
+      · rw [if_pos (by simpa using h2)]
+        simp only [error_ne_ok, false_iff]
+        rintro ⟨_, h', _⟩; omega
+      · rw [if_neg (by simpa using h2)]
+        by_cases h3 : (lines.take nnz).all (fun ln => ln.length == s.length) = true
+        · rw [if_neg (by rw [not_bnot_true]; exact h3), rejectIf_ok, Bool.not_eq_false', List.all_eq_true]
+          rw [List.all_eq_true] at h3
+          simp only [h1, true_and, show nnz ≤ lines.length by omega]
+          constructor
+          · intro h' ln hl; exact ⟨beq_iff_eq.1 (h3 ln hl), (rowInShape_iff _ _).1 (h' ln hl)⟩
+          · intro h' ln hl; exact (rowInShape_iff _ _).2 (h' ln hl).2
+        · rw [if_pos (by rw [bnot_true]; exact h3)]
+          simp only [error_ne_ok, false_iff]
+          rintro ⟨_, _, h'⟩
+          apply h3
+          rw [List.all_eq_true]
+          intro ln hl
+          rw [beq_iff_eq]
+          exact (h' ln hl).1
+    · rw [if_pos (by simp [h1])]
+      simp only [error_ne_ok, false_iff]
+      rintro ⟨h', _⟩; exact h1 h'.symm
+  | ktensor h s R nw fs =>
+    rw [validate_import, Pre_import]
+    rw [eq_map_iff_getD]
+    by_cases h1 : s.length = h
+    · rw [if_neg (by simp [h1])]
+      by_cases h2 : fs.length < s.length
+      · rw [if_pos (by simpa using h2)]
+        simp only [error_ne_ok, false_iff]
+        rintro ⟨_, _, ⟨h', _⟩, _⟩; omega
+      · rw [if_neg (by simpa using h2)]
+        by_cases h3 : (List.range s.length).all (fun k => fs.getD k (0, 0) == (s.getD k 0, R)) = true
+        · rw [if_neg (by rw [not_bnot_true]; exact h3)]
+          have h3' : ∀ k, k < s.length → fs.getD k (0, 0) = (s.getD k 0, R) := by
+            simpa [List.all_eq_true] using h3
+          by_cases h4 : fs.length = s.length
+          · rw [if_neg (by simp [h4])]
+            by_cases h5 : nw < R
+            · rw [if_pos (by simpa using h5)]
+              simp only [error_ne_ok, false_iff]
+              rintro ⟨_, h', _⟩; omega
+            · rw [if_neg (by simpa using h5), rejectIf_ok]
+              simp only [h1, h4, true_and, show R ≤ nw by omega, List.isEmpty_eq_false_iff, ne_eq]
+              exact ⟨fun hs => ⟨h3', hs⟩, fun hs => hs.2⟩
+          · rw [if_pos (by simp [h4])]
+            simp only [error_ne_ok, false_iff]
+            rintro ⟨_, _, ⟨h', _⟩, _⟩; exact h4 h'
+        · rw [if_pos (by rw [bnot_true]; exact h3)]
+          simp only [error_ne_ok, false_iff]
+          rintro ⟨_, _, ⟨_, h'⟩, _⟩
+          apply h3
+          rw [List.all_eq_true]
+          intro k hk
+          rw [beq_iff_eq]
+          exact h' k (List.mem_range.1 hk)
+    · rw [if_pos (by simp [h1])]
+      simp only [error_ne_ok, false_iff]
+      rintro ⟨h', _⟩; exact h1 h'.symm
+  | unknown => simp [validate_import, Pre_import]
+  | missing => simp [validate_import, Pre_import]
 
 end Pyttb
